@@ -82,6 +82,24 @@ def strip_date(raw):
     return refspec.encode(meta)
 
 
+def fresh_create(box, kind, root, out, pl, opts, hashseed):
+    """Create in a fresh interpreter with the given PYTHONHASHSEED; returns the raw bytes."""
+    import json
+    import subprocess
+    import sys
+    from harness.common import REPO, VERIF
+    env = dict(os.environ, VERIF_HOME=VERIF, VERIF_REPO=REPO, PYTHONPATH=VERIF,
+               PYTHONHASHSEED=hashseed)
+    op = {"op": "create", "kind": kind, "path": root, "out": out, "pl": pl, "opts": opts}
+    proc = subprocess.run([sys.executable, "-m", "harness.ops"], input=json.dumps(op),
+                          capture_output=True, text=True, cwd=box, env=env)
+    for line in proc.stdout.splitlines():
+        if line.startswith("OBS "):
+            obs = json.loads(line[4:])
+            return bytes.fromhex(obs["raw"]) if "raw" in obs else None
+    raise MachineryError("fresh interpreter produced no observable: " + proc.stderr[-300:])
+
+
 def run_case(run, drv, case_seed, tier):
     rng = random.Random(case_seed)
     pl = rng.choice([16384, 32768])
@@ -188,6 +206,32 @@ def run_case(run, drv, case_seed, tier):
         cli_raw = open(os.path.join(box, "cli.torrent"), "rb").read()
         if kind in ("v1", "a2", "a3"):      # the CLI uses TorrentFile / TorrentAssembler
             check("cli-relative", cli_raw)
+            # output location inside the payload itself (the metafile does not exist yet
+            # while the payload is scanned, so it must not appear in it)
+            if not single:
+                inside = os.path.join(root, "zz-out.torrent")
+                try:
+                    impl.cli(argv[:argv.index("-o") + 1] + [inside] + argv[argv.index("-o") + 2:] + [root])
+                    check("outfile-inside-payload", open(inside, "rb").read())
+                finally:
+                    if os.path.exists(inside):
+                        os.remove(inside)
+        # equal input in two separate interpreters (different hash seeds), URL lists with
+        # repeated entries: the files may differ in the creation date only
+        dup = rng.sample(metas.URLS, 3)
+        dup_opts = {"announce": [dup[0], dup[1], dup[0], dup[2]], "url_list": [dup[1], dup[2], dup[1]],
+                    "httpseeds": [dup[2], dup[0], dup[2], dup[1]]}
+        two = []
+        for hs in ("1", "777"):
+            two.append(fresh_create(box, kind, root, os.path.join(box, f"h{hs}.torrent"), pl,
+                                    dict(dup_opts, **iopts), hs))
+        variants.append("two-processes")
+        if two[0] is None or two[1] is None or strip_date(two[0]) != strip_date(two[1]):
+            run.fail("impl-vs-spec", dict(case, variant="two-processes"),
+                     {"why": "two interpreters on equal input wrote different files",
+                      "opts": dup_opts})
+        elif info_bytes(two[0]) != base_info:
+            run.fail("impl-vs-spec", dict(case, variant="two-processes"), {"why": "info differs"})
     run.case([version, kind, single, sorted(len(b) % pl for _, b in files), len(files)],
              True, sample=dict(case, variants=sorted(set(variants))),
              classes=[f"v{version}", kind, "single" if single else "dir"])
